@@ -180,7 +180,7 @@ func c06Race(c *vx.Ctx) {
 		return
 	}
 	p := c.Part("trim-race")
-	p.Incomplete("free-running pass under the race detector: interleavings are sampled by the Go scheduler, not enumerated")
+	p.Sampling("free-running pass under the race detector: interleavings are chosen by the Go scheduler, not enumerated")
 	bin := os.Getenv("VQ_BIN_vqr")
 	if bin == "" {
 		p.Incomplete("-race build (vqr) not available: part skipped")
